@@ -48,6 +48,69 @@ type segment struct {
 	ch     []int
 }
 
+// exploreFocused: depth-first enumeration of the schedules with at most maxPre preemptions in which a thread is
+// preempted only where it matters for the clocks: while it is inside a LamportClock method (before the load, the
+// comparison, the CAS, the add), right after it left one, at the start and at the end of a call.  Between two
+// consecutive shared accesses of a thread all preemption points are equivalent, and the other shared accesses of the
+// instrumented functions (locks, buffers) directly follow or precede a clock access, so this keeps one representative
+// per class while the number of schedules stays small enough for a second preemption.
+func exploreFocused(sc sched.Scenario, maxPre, budget int) (int, bool) {
+	type cp struct{ choice, alts int }
+	forced := []int{}
+	n := 0
+	for n < budget {
+		s := sched.New()
+		onStep, finish := sc(s)
+		lastID := 0
+		after := map[int]bool{} // thread -> its last step was inside a LamportClock method
+		var cps []cp
+		preempts := 0
+		interesting := func(t *sched.Thread) bool {
+			return strings.HasPrefix(t.Label, "LamportClock.") || t.Label == "op-done" || t.Label == "start" || after[t.ID]
+		}
+		res := s.Run(func(step int, elig []*sched.Thread) int {
+			allowed := len(elig)
+			lastElig := elig[0].ID == lastID
+			if lastElig && (preempts >= maxPre || !interesting(elig[0])) {
+				allowed = 1
+			}
+			if allowed <= 1 {
+				return 0
+			}
+			c := 0
+			if len(cps) < len(forced) {
+				c = forced[len(cps)]
+			}
+			cps = append(cps, cp{c, allowed})
+			if lastElig && c != 0 {
+				preempts++
+			}
+			return c
+		}, -1, func(st sched.Step) {
+			lastID = st.Thread
+			after[st.Thread] = strings.HasPrefix(st.From, "LamportClock.")
+			onStep(st)
+		})
+		finish(res)
+		n++
+		i := len(cps) - 1
+		for ; i >= 0; i-- {
+			if cps[i].choice+1 < cps[i].alts {
+				break
+			}
+		}
+		if i < 0 {
+			return n, true
+		}
+		forced = forced[:0]
+		for k := 0; k < i; k++ {
+			forced = append(forced, cps[k].choice)
+		}
+		forced = append(forced, cps[i].choice+1)
+	}
+	return n, false
+}
+
 func xname(x int) string { return "c-" + strconv.Itoa(x) }
 func xof(name string) int {
 	if strings.HasPrefix(name, "c-") {
@@ -235,9 +298,9 @@ func conc(in, out, dir string, nc, maxpre, budget, nrand int) {
 			total++
 			continue
 		}
-		st := sched.Explore(sc, maxpre, budget, h.Seed(), false)
-		total += st.Schedules
-		if st.Exhaustive {
+		ns, all := exploreFocused(sc, maxpre, budget)
+		total += ns
+		if all {
 			complete++
 		}
 		st2 := sched.Random(sc, nrand, h.Seed()*7919+int64(p.ID), false)
